@@ -20,7 +20,7 @@ theorem convert_value {c c' : Conv Rat} {q r : Qty Rat} {t : UId}
     r.unit = t ∧ ∃ plan : List StepV,
       r.mag.val = (affineOf plan).1 * ((Pfx.value (c.st.unit! q.unit).pfx : Mag Rat).val * q.mag.val)
         + (affineOf plan).2 := by
-  obtain ⟨hu, _, plan, _, hv⟩ := convert_ok h
+  obtain ⟨hu, plan, _, hv⟩ := convert_ok h
   exact ⟨hu, plan.map PlanStep.toV, by rw [hv, applyPlanV_affine]⟩
 
 /-- If a plan's coefficients are `(ρ, 0)` with `ρ` the ratio of the unit sizes, the plan
